@@ -17,7 +17,9 @@ Idx(s) == IF IdxC = {} THEN -1 .. (Len(s.els) + 1) ELSE IdxC
 Handles(s) == 0 .. (s.nxt - 1)
 
 OpsOf(s) ==
-     {[op |-> n] : n \in OpNames \cap ((Constructors \ (TextCtors \cup {"AddElement"})) \cup SectTouchers)}
+     {[op |-> n] : n \in OpNames \cap ((Constructors \ (TextCtors \cup {"AddElement", "CreateMultiLevelList", "AddImage"})) \cup SectTouchers)}
+  \cup (IF "AddImage" \in OpNames THEN {[op |-> "AddImage", same |-> b] : b \in BOOLEAN} ELSE {})
+  \cup (IF "CreateMultiLevelList" \in OpNames THEN {[op |-> "CreateMultiLevelList", n |-> 3, blank |-> b] : b \in 0..3} ELSE {})
   \cup {[op |-> n, txt |-> t] : n \in OpNames \cap TextCtors, t \in TxtC}
   \cup (IF "AddElement" \in OpNames THEN {[op |-> "AddElement", k |-> k] : k \in {"p", "tbl"}} ELSE {})
   \cup (IF "Read" \in OpNames THEN {[op |-> "Read", what |-> w] : w \in {"paras", "tables"}} ELSE {})
